@@ -28,7 +28,7 @@ ASSUMPTIONS = [
     "reference wire walker vlib/ref/wirewalk.py and reference name decoder",
     "record equality is judged on the wire view (owner, wire class, type, covers, ttl, set of rdata encodings); rdata inside sections is decoded with dns.rdata.from_wire (decided by C02)",
 ]
-REQUIRED = ["mon.roundtrip", "mon.walker_counts", "mon.rerender_identical", "mon.compress_entry", "mon.compress_hit", "mon.index_lookup", "mon.structural_rejection"]
+REQUIRED = ["mon.renderer_by_hand_identical", "mon.roundtrip", "mon.walker_counts", "mon.rerender_identical", "mon.compress_entry", "mon.compress_hit", "mon.index_lookup", "mon.structural_rejection"]
 BUDGET = {"quick": 45.0, "thorough": 480.0}
 
 
@@ -315,6 +315,23 @@ def check_message(ctx, spy, m, info):
             ctx.violation("rerender-without-shuffle-not-byte-identical", f"first diff at {next((i for i in range(min(len(w2), len(w3))) if w2[i] != w3[i]), min(len(w2), len(w3)))} len {len(w2)} vs {len(w3)}", dict(case, wire=w2))
         if spy.tables:
             check_compression(ctx, spy.tables[-1], w3, case, ":rerender")
+        # --- the same message assembled by hand with dns.renderer.Renderer (add_question / add_rrset / add_edns, the spelling the
+        # class documents) gives the same octets as Message.to_wire
+        if m2.tsig is None and not m2.pad:
+            ctx.count("mon.renderer_by_hand_identical")
+            r = dns.renderer.Renderer(m2.id, int(m2.flags), 65535, m.origin)
+            for qq in m2.question:
+                r.add_question(qq.name, qq.rdtype, qq.rdclass)
+            for si, sec in ((dns.renderer.ANSWER, m2.answer), (dns.renderer.AUTHORITY, m2.authority), (dns.renderer.ADDITIONAL, m2.additional)):
+                for rr in sec:
+                    r.add_rrset(si, rr, want_shuffle=False)
+            if m2.edns >= 0:
+                r.add_edns(m2.edns, m2.ednsflags, m2.payload, m2.options)
+            r.write_header()
+            wh = r.get_wire()
+            if wh != w2:
+                d = next((i for i in range(min(len(wh), len(w2))) if wh[i] != w2[i]), min(len(wh), len(w2)))
+                ctx.violation("renderer-used-by-hand-differs-from-to_wire:" + ("edns" if m2.edns >= 0 else "no-edns") + (":extended-rcode" if int(m2.rcode()) > 15 else ""), f"first difference at {d}, lengths {len(wh)} / {len(w2)}", dict(case, wire=w2))
         # one_rr_per_rrset parse carries the same records
         m4 = dns.message.from_wire(w, origin=m.origin, one_rr_per_rrset=True)
         if norm(GM.wire_view(m4, m.origin)) != want_view and not relcol:
